@@ -19,6 +19,8 @@ const DN: [&str; 4] = ["uom", "uusd", "uusdc", "uweth"];
 pub enum P13 {
     /// constant-product swap uom->uusd; tol / belief as Decimal atomics (1e18 = 1.0)
     CpSwap { x: u128, y: u128, fees: FeeSpec, offer: u128, tol: Option<u128>, belief: Option<u128> },
+    /// the same trade through ExecuteSwapOperations (1 hop, or 2 hops with a deep zero-fee second pool)
+    CpRoute { x: u128, y: u128, fees: FeeSpec, offer: u128, tol: Option<u128>, hops: u8 },
     /// constant-product deposit with liquidity_max_slippage
     CpDeposit { x: u128, y: u128, d0: u128, d1: u128, tol: Option<u128> },
     /// stableswap swap asset0->asset1 (or reverse) evaluated under the whole tolerance ladder, on the pool
@@ -106,6 +108,52 @@ fn eval(w: &mut World, p: &P13, rec: &mut Rec) -> bool {
             }
             if must_reject && out.is_ok() {
                 rec.viol_kf("C13_unprotected_trade_executed", format!("{:?}", p), format!("{:?}: return {} is outside the tolerance but the swap executed", p, sim.return_amount));
+            }
+            true
+        }
+        P13::CpRoute { x, y, fees, offer, tol, hops } => {
+            if !setup_pool(w, &[6, 6], &[*x, *y], None, fees) {
+                rec.count("c13_setup_refused");
+                return false;
+            }
+            if *hops == 2 {
+                // second hop uusd -> uweth through a deep zero-fee pool: its own price impact is negligible
+                let o = apply(w, &PuOp::CreatePool { u: OWNER, denoms: vec!["uusd".into(), "uweth".into()], decimals: vec![6, 6], fees: zero_fees(), amp: None, id: Some("h".into()), funds: vec![("uom".into(), 8888), ("uusd".into(), 1000)] });
+                let deep = y.saturating_mul(1_000_000).max(10u128.pow(12));
+                let o2 = apply(w, &PuOp::Provide { u: OWNER, pool: "o.h".into(), funds: vec![("uusd".into(), deep), ("uweth".into(), deep)], lock: None, lock_id: None, recv: None, liq_slip: None, swap_slip: None });
+                if !o.is_ok() || !o2.is_ok() {
+                    rec.count("c13_setup_refused");
+                    return false;
+                }
+            }
+            let pma = w.pool_manager.clone();
+            let sim: Result<pm::SimulationResponse, String> = w.query(&pma, &pm::QueryMsg::Simulation { offer_asset: coin(*offer, "uom"), ask_asset_denom: "uusd".into(), pool_identifier: "o.g".into() });
+            let mut hopsv = vec![("uom".to_string(), "uusd".to_string(), "o.g".to_string())];
+            if *hops == 2 {
+                hopsv.push(("uusd".to_string(), "uweth".to_string(), "o.h".to_string()));
+            }
+            let s0 = w.snapshot();
+            let a = w.users[A].clone();
+            let out = w.exec(&a, &pma, &pm::ExecuteMsg::ExecuteSwapOperations { operations: ops_of(&hopsv), minimum_receive: None, receiver: None, max_slippage: tol.map(dec) }, &[coin(*offer, "uom")]);
+            rec.outcome("CpRoute", out.class());
+            if !out.is_ok() && w.app.storage().data != s0.storage.data {
+                rec.viol("C13_failed_route_changed_state", format!("{:?}", p));
+            }
+            let Ok(sim) = sim else { return true };
+            let net = big(sim.return_amount.u128());
+            let t = big(eff_tol(*tol));
+            let den = big(E18);
+            let ideal = big(*offer) * big(*y) / big(*x);
+            let ideal_hi = &ideal + 1;
+            let ideal_lo = &ideal - 1 - big(*offer) / big(E18) - 1;
+            let must_accept = *hops == 1 && (&ideal_hi - &net) * &den <= &t * &ideal_hi;
+            let must_reject = ideal_lo > BigInt::from(0) && (&ideal_lo - &net) * &den > (&t + BigInt::from(2)) * &ideal_lo;
+            rec.count(if must_accept { "c13_route_must_accept" } else if must_reject { "c13_route_must_reject" } else { "c13_route_dont_care" });
+            if must_accept && !out.is_ok() {
+                rec.viol("C13_protected_route_refused", format!("{:?}: first-hop return {} is within the tolerance but the route was refused: {}", p, sim.return_amount, out.err_text()));
+            }
+            if must_reject && out.is_ok() {
+                rec.viol("C13_unprotected_route_executed", format!("{:?}: the first hop returns {} which is outside the tolerance (never more than 50%), but the route executed", p, sim.return_amount));
             }
             true
         }
@@ -284,6 +332,10 @@ pub fn points(tier: Tier) -> Vec<P13> {
                         continue;
                     }
                     v.push(P13::CpSwap { x: *x, y: *y, fees: f.clone(), offer: o, tol: *tol, belief: None });
+                    if *x <= 10u128.pow(19) {
+                        v.push(P13::CpRoute { x: *x, y: *y, fees: f.clone(), offer: o, tol: *tol, hops: 1 });
+                        v.push(P13::CpRoute { x: *x, y: *y, fees: f.clone(), offer: o, tol: *tol, hops: 2 });
+                    }
                 }
             }
             // belief price variants: belief = pool price x {0.5, 0.99, 1, 1.01, 2}, tolerance ladder
